@@ -33,14 +33,13 @@ Qed.
 (* every hypothesis of the exactness theorem except the D10 exclusion *)
 Definition d10_hyps (range : Z) : Prop :=
   view_ok (@t_key bytes) (@t_admissible bytes) (d10_flavour range) d10_view /\
-  quiet_before (@t_admissible bytes) d10_view (fl_first_start (d10_flavour range)) /\
   hash_determines d10_view d10_view /\
   theads_ok tag_match (d10_flavour range) tginit d10_history /\
   no_decrypt bytes d10_history.
 
 Lemma d10_hyps_hold range : 0 < range < 1000 -> d10_hyps range.
 Proof.
-  intros Hr. split; [apply d10_view_ok; exact Hr|]. split; [vm_compute; reflexivity|].
+  intros Hr. split; [apply d10_view_ok; exact Hr|].
   split; [intros n bv bw _ _ _; apply agree_upto_refl|]. split; [split; exact I|].
   intros k [H|[]]. discriminate.
 Qed.
@@ -118,8 +117,7 @@ Lemma fork_hypotheses :
 Proof.
   assert (HU : tuniverse_ok fork_flavour (top_views fork_history)).
   { split.
-    + intros u Hu. split; [apply fork_view_ok; exact Hu|].
-      destruct Hu as [<-|[<-|[<-|[]]]]; vm_compute; reflexivity.
+    + intros u Hu. apply fork_view_ok; exact Hu.
     + intros u w [<-|[<-|[<-|[]]]] [<-|[<-|[<-|[]]]]; concrete_hash_determines. }
   assert (Hok : theads_ok tag_match fork_flavour tginit fork_history).
   { split; [exact I|].
@@ -134,7 +132,7 @@ Proof.
     rewrite Hg2. split; [|exact I].
     unfold head_ok; cbn [g_st g_view ts_core tg_st tg_view st_status]. split; [concrete_agree|right; concrete_agree]. }
   split; [exact HU|]. split; [exact Hok|]. split.
-  - apply (no_early_history bytes tag_match fork_flavour ltac:(reflexivity) ltac:(discriminate) ltac:(discriminate) fork_history HU);
+  - apply (no_early_history bytes tag_match fork_flavour ltac:(reflexivity) ltac:(discriminate) ltac:(discriminate) eq_refl fork_history HU);
       [intros u _; apply no_early_match_one|exact Hok].
   - intros k [H|[H|[H|[]]]]; discriminate.
 Qed.
